@@ -113,6 +113,9 @@ fn shrink_stmt(s: &Stmt) -> Vec<Stmt> {
         Stmt::Spawn { task, slot } => {
             out.extend(shrink_task(task).into_iter().map(|t| Stmt::Spawn { task: t, slot: *slot }));
         }
+        Stmt::SpawnChan { c, child_sends, task, slot } => {
+            out.extend(shrink_task(task).into_iter().map(|t| Stmt::SpawnChan { c: *c, child_sends: *child_sends, task: t, slot: *slot }));
+        }
         Stmt::JoinAll(ts) | Stmt::SelectFirst(ts) => {
             let is_join = matches!(s, Stmt::JoinAll(_));
             let mk = |v: Vec<Task>| if is_join { Stmt::JoinAll(v) } else { Stmt::SelectFirst(v) };
